@@ -123,6 +123,17 @@ def descendants(root):
     return out
 
 
+def ns_pids():
+    """Every process visible in the case's pid namespace: [pid, state, ppid]."""
+    out = []
+    for n in os.listdir("/proc"):
+        if n.isdigit():
+            st, ppid = proc_state(int(n))
+            if st is not None:
+                out.append([int(n), st, ppid])
+    return out
+
+
 def fd_census():
     kinds = {}
     detail = {}
@@ -182,9 +193,11 @@ def ex_snapshot(ex):
 
 
 def remember(name, ex):
-    info = EXINFO.setdefault(name, {"pids": set(), "ids": set()})
+    info = EXINFO.setdefault(name, {"pids": set(), "ids": set(), "procs": {}})
     try:
         info["pids"].update(list(ex._processes))
+        if CONFIG.get("keep_procs"):
+            info["procs"].update(dict(ex._processes))
         info["ids"].add(id(ex))
         m = ex._executor_manager_thread
         if m is not None:
@@ -311,6 +324,7 @@ def op_get_reusable(op, oid, ctx):
             "pids_alive": [p for p in prev_pids if proc_state(p)[0] not in (None, "Z")],
             "pids_zombie": [p for p in prev_pids if proc_state(p)[0] == "Z"],
             "mgr_alive": bool(prev_mgr is not None and prev_mgr.is_alive()),
+            "ns": ns_pids(),
         }
     del prev_mgr
     EXECS[name] = ex
@@ -392,17 +406,29 @@ def op_shutdown(op, oid, ctx):
     return after_shutdown_snapshot(op["ex"], ex)
 
 
+def exitcodes(name):
+    """Exit codes already collected by loky's own join()s: plain attribute reads, no poll."""
+    out = {}
+    for pid, p in EXINFO.get(name, {}).get("procs", {}).items():
+        try:
+            out[str(pid)] = p._popen.returncode
+        except Exception:
+            out[str(pid)] = "?"
+    return out
+
+
 def after_shutdown_snapshot(name, ex):
     info = EXINFO.get(name, {"pids": set()})
     pids = sorted(info["pids"])
     tree = []
     return {
         "snap": ex_snapshot(ex),
+        "exitcodes": exitcodes(name),
         "threads": thread_names(),
         "pids_alive": [p for p in pids if proc_state(p)[0] not in (None, "Z")],
         "pids_zombie": [p for p in pids if proc_state(p)[0] == "Z"],
         "children": children_census(),
-        "tree": tree,
+        "ns": ns_pids(),
     }
 
 
@@ -433,6 +459,7 @@ def op_join_mgr(op, oid, ctx):
     pids = sorted(info["pids"])
     return {
         "joined": n,
+        "exitcodes": exitcodes(name),
         "threads": thread_names(),
         "pids_alive": [p for p in pids if proc_state(p)[0] not in (None, "Z")],
         "pids_zombie": [p for p in pids if proc_state(p)[0] == "Z"],
@@ -508,7 +535,8 @@ def op_census(op, oid, ctx):
             "shm": shm_list(),
         }
         key = json.dumps(cur, sort_keys=True)
-        if key == prev or time.monotonic() > deadline:
+        waiting_feeder = bool(op.get("after_shutdown")) and any(t.startswith("QueueFeederThread") for t in cur["threads"])
+        if (key == prev and not waiting_feeder) or time.monotonic() > deadline:
             cur["fd_detail"] = detail
             return cur
         prev = key
